@@ -121,6 +121,14 @@ class Stats:
         return self
 
 
+class LibraryRaised(Exception):
+    """An exception whose innermost frame is library code escaped in a worker, outside every guarded region."""
+
+    def __init__(self, message, trace):
+        super().__init__(message)
+        self.trace = trace
+
+
 def _child_main(worker, chunk, conn):
     try:
         st = worker(chunk)
@@ -128,7 +136,7 @@ def _child_main(worker, chunk, conn):
     except BaseException as ex:  # noqa: BLE001
         import traceback
         try:
-            conn.send(("error", f"{type(ex).__name__}: {ex}", traceback.format_exc()))
+            conn.send(("error", f"{type(ex).__name__}: {ex}", traceback.format_exc(), raised_in_library(ex)))
         except Exception:  # noqa: BLE001
             pass
     finally:
@@ -185,6 +193,8 @@ def run_jobs(func, jobs, workers=None):
     if failure is not None:
         for p, r in running.values():
             p.kill()
+        if len(failure) > 3 and failure[3]:
+            raise LibraryRaised(failure[1], failure[2])
         raise RuntimeError(f"worker failed: {failure[1]}\n{failure[2]}")
     return [results[i] for i in range(len(jobs))]
 
@@ -252,6 +262,8 @@ def pmap_stats(worker, items, chunk=200, name=None, workers=None) -> Stats:
     if failure is not None:
         for p, r in running.values():
             p.kill()
+        if len(failure) > 3 and failure[3]:
+            raise LibraryRaised(failure[1], failure[2])
         raise RuntimeError(f"worker failed: {failure[1]}\n{failure[2]}")
     for i in sorted(results):
         total.merge(results[i])
